@@ -43,6 +43,12 @@ echo "{\"engine\": \"libFuzzer (cargo-fuzz, ASan)\", \"target\": \"$TARGET\", \"
 if [ $RC -ne 0 ]; then
   A=$(ls $W/artifacts/* 2>/dev/null | head -1)
   if [ -n "$A" ]; then
+    # a unit that ran into libFuzzer's time or RSS limit decides nothing (exit 2); a single oversized
+    # allocation ("malloc(N)" above -malloc_limit_mb) is the memory clause and is a violation like any crash
+    case "$(basename $A)" in
+      timeout-*|slow-unit-*) echo "HARNESS: fuzz unit hit the time limit (inconclusive): $A" >&2; rm -rf $W; exit 2 ;;
+      oom-*) grep -q "malloc(" $W/log || { echo "HARNESS: fuzzer hit the RSS limit (inconclusive)" >&2; rm -rf $W; exit 2; } ;;
+    esac
     R="$V/replays/new/fuzz-$TARGET-$(basename $A)"; cp "$A" "$R"
     grep -E "VIOLATION|panicked|ERROR: |SUMMARY" $W/log | head -5 >&2
     echo "VIOLATION property=$PROP replay=$R"
